@@ -4,7 +4,7 @@ import OpusProofs.SilkSymsTables
   every decoded index lies inside the table the decoder later indexes with it.
 -/
 namespace Opus.SilkSymsProofs
-open Opus Opus.RangeCoder Opus.SilkSyms Opus.Gen.SilkIcdf
+open Opus Opus.RangeCoder Opus.SilkSyms Opus.SilkSymsFrozen.Icdf
 
 /-- Everything later code relies on about the output of `silk_decode_indices`. -/
 structure IndicesOk (rate : Rate) (nbSubfr cc prevSig : Nat) (prevLag : Int) (ix : Indices) : Prop where
